@@ -23,7 +23,7 @@ from ..report import Ctx
 from ..selftest import Mutant
 
 PROP = "C16"
-TECHNIQUE = "static analysis: truth-table evaluation of the wildcard and reduction predicates + quantifier-direction analysis of the union arms + guard facts of the validator call and the Array wrapping + read-only (no-mutation) rule for the validator + union-member narrowing rule + forced/rebound validation-flag rule + cached-annotation freshness rule for _clear_internal_cache + totality of the comparison predicate (no raise / strict zip)"
+TECHNIQUE = "static analysis: truth-table evaluation of the wildcard and reduction predicates + quantifier-direction analysis of the union arms + guard facts of the validator call and the Array wrapping + read-only (no-mutation) rule for the validator + union-member narrowing rule + forced/rebound validation-flag rule + cached-annotation freshness rule for _clear_internal_cache + totality of the comparison predicate (no raise / strict zip) + every mutating path of a Pipeline mutator re-validates (must-pass with mutation-on-path)"
 TY = "pipefunc.typing"
 VAL = "pipefunc._pipeline._validation"
 EXPLANATION = (
